@@ -673,10 +673,7 @@ STATIC contract on the source expressions — definedness is proved, not assumed
 * `GoodE d e` — `GoodS d e` plus `DefOn d e` (defined at every assignment satisfying `d`); used INSIDE the
   development (the specifications of the lowering functions below take `DefOn` of their argument); the
   end-to-end theorems obtain it from the successful run (`process_constraint_defined`).
-* `VerdictDef d c` — the residual clause (finding 4): IF `c` is a comparison whose normalised sides make
-  `try_normalize_logic_constraint` answer `Tautology`/`Contradiction`, THEN both sides are `DefOn d`
-  (`verdict_check`; `c01_verdict_counterexample` shows that rooc needs it).
-* `SrcD d c` — both sides of the constraint `c` are `GoodS d`, and `VerdictDef d c`.
+* `SrcD d c` — both sides of the constraint `c` are `GoodS d`.
 * `LogicModel m d` — the objective is `GoodS d`, every constraint (comparison or bare assertion) is `SrcD d`.
   Every `FragModel` is a `LogicModel`.
 * `HasTruth e t ρ` — `e` evaluates to `1` (`t = true`) / `0` (`t = false`) at `ρ`;
@@ -736,12 +733,10 @@ compilation proves every lowered side defined at every assignment (`linearize_ex
 
 `_partial`: the excluded region is (i) models with an and/or node that collapses to a non-0/1 value on the
 domains (`c01_logic_counterexample`: C10's known finding, flag `nary-singleton-nonbinary`), (ii) non-finite
-literals (`c01_defined_counterexample`), (iii) the RESIDUAL clause `VerdictDef` (finding 4): a comparison of a
-logic value with a literal that `try_normalize_logic_constraint` decides from the literal alone
-(`Tautology`/`Contradiction`) is not lowered by rooc, so for exactly those constraints definedness of the two
-sides stays a hypothesis (`verdict_check`: implied by `may_be_undefined = false`; void for bare assertions).
-`DomRel`/`BoxEnforced` as in `c01_partial`; they are discharged for the whole pipeline in
-`c01_compile_logic_partial`. -/
+literals (`c01_defined_counterexample`).  Three places where rooc discarded a sub-expression without lowering it
+were found with these theorems and are repaired (5a25b35, 46b0121, ba14904: `c01_zero_factor_regression`,
+`c01_pruned_operand_regression`, `c01_verdict_regression`).  `DomRel`/`BoxEnforced` as in `c01_partial`; they
+are discharged for the whole pipeline in `c01_compile_logic_partial`. -/
 theorem c01_logic_partial {m : Model (Ext K)} {b : BoundsMap (Ext K)} {d : List (DomVar (Ext K))}
     {lm : LinModel (Ext K)} (h : linearizeWith m b d = .ok lm)
     (hm : LogicModel m d) (hdom : DomRel m d) (hbox : BoxEnforced b d) (ρ : String → K) :
@@ -783,17 +778,8 @@ theorem defined_check {d : List (DomVar (Ext K))} {e : Exp (Ext K)} (hf : finite
   have := Rooc.Def_of_total ρ e hf hu
   exact ⟨_, Rooc.eval_of_Def this⟩
 
-/-- the residual clause `VerdictDef` from decidable checks: finite literals and `may_be_undefined = false` on
-both sides (or: the constraint is a bare assertion). -/
-theorem verdict_check {d : List (DomVar (Ext K))} {c : Constraint (Ext K)}
-    (h : c.isAssert = true ∨ (finiteLits c.lhs = true ∧ finiteLits c.rhs = true ∧
-      Exp.mayBeUndefined c.lhs = false ∧ Exp.mayBeUndefined c.rhs = false)) : VerdictDef d c := by
-  rcases h with h | ⟨h1, h2, h3, h4⟩
-  · exact VerdictDef.ofAssert h
-  · exact VerdictDef.ofDefOn (defined_check h1 h3) (defined_check h2 h4)
-
 /-- **the contract from decidable checks only**: well-scoped, finite literals, not flagged
-`nary-singleton-nonbinary` on every side; plus the residual clause on the constraints (`verdict_check`). -/
+`nary-singleton-nonbinary` on every side.  Nothing else. -/
 theorem logicModel_of_checks {m : Model (Ext K)} {d : List (DomVar (Ext K))} (hnd : (d.map (·.name)).Nodup)
     (hobj : (∀ x ∈ varsOf m.objective, inScope d x) ∧ finiteLits m.objective = true ∧
       collapsesNonbinary (isBoolVar d) m.objective = false)
@@ -801,13 +787,12 @@ theorem logicModel_of_checks {m : Model (Ext K)} {d : List (DomVar (Ext K))} (hn
       ((∀ x ∈ varsOf c.lhs, inScope d x) ∧ finiteLits c.lhs = true ∧
         collapsesNonbinary (isBoolVar d) c.lhs = false) ∧
       ((∀ x ∈ varsOf c.rhs, inScope d x) ∧ finiteLits c.rhs = true ∧
-        collapsesNonbinary (isBoolVar d) c.rhs = false) ∧
-      VerdictDef d c) :
+        collapsesNonbinary (isBoolVar d) c.rhs = false)) :
     LogicModel m d := by
   have mk : ∀ e : Exp (Ext K), ((∀ x ∈ varsOf e, inScope d x) ∧ finiteLits e = true ∧
       collapsesNonbinary (isBoolVar d) e = false) → GoodS d e :=
     fun e h => ⟨h.1, h.2.1, NCon.ofFlag hnd h.1 h.2.2⟩
-  exact ⟨mk _ hobj, fun c hc => ⟨mk _ (hcons c hc).1, mk _ (hcons c hc).2.1, (hcons c hc).2.2⟩⟩
+  exact ⟨mk _ hobj, fun c hc => ⟨mk _ (hcons c hc).1, mk _ (hcons c hc).2⟩⟩
 
 /-! ### compile succeeds ⇒ defined -/
 
@@ -916,19 +901,15 @@ theorem c01_pruned_operand_regression :
     linearizeWith (exPr : Model (Ext K)) [] (exPr : Model (Ext K)).domain = .error .divisionByZero :=
   exPr_error
 
-/-- **the residual clause `VerdictDef` cannot be dropped** (FINDING 4 on the real code, confirmed with
+/-- **regression for the repaired finding 4** (rooc ba14904, found by this development and confirmed with
 `Linearizer::linearize`): `min x s.t. c: (b and (x / 0)) ≤ 1`, `x ∈ Real(0, 1)`, `b` Boolean.
-`try_normalize_logic_constraint` answers `Tautology` from the literal `1` alone, so the logic value is never
-lowered and its division by zero never reported: the model compiles to NO row, the linear model is feasible, the
-source model is not (`(b and (x / 0)) ≤ 0` IS rejected).  Every static clause of the contract holds (scope, finite
-literals, no collapsing node), and so do `DomRel` and `BoxEnforced`. -/
-theorem c01_verdict_counterexample :
-    ∃ (m : Model (Ext K)) (b : BoundsMap (Ext K)) (d : List (DomVar (Ext K))) (lm : LinModel (Ext K))
-      (ρ : String → K),
-      linearizeWith m b d = .ok lm ∧ DomRel m d ∧ BoxEnforced b d ∧
-      (∀ c ∈ m.constraints, GoodS d c.lhs ∧ GoodS d c.rhs) ∧ GoodS d m.objective ∧
-      linFeasible lm ρ = true ∧ ∀ ρ' : String → K, ¬ srcFeasible m ρ' = true :=
-  verdict_needed
+`try_normalize_logic_constraint` answered `Tautology` from the literal `1` alone, so the logic value was never
+lowered and its division by zero never reported: the model compiled to NO row (while `(b and (x / 0)) ≤ 0` was
+rejected).  The two constant verdicts are now guarded by `!may_be_undefined()`; the constraint takes the generic
+path and the compilation is rejected. -/
+theorem c01_verdict_regression :
+    linearizeWith (exTaut : Model (Ext K)) [] (exTaut : Model (Ext K)).domain = .error .divisionByZero :=
+  exTaut_error
 
 /-- **`AssertShape` is discharged for every model that comes over the wire** (`Model.dec`, the decoder the
 checker uses): a bare assertion is always stored as `lhs = 1`. -/
